@@ -195,6 +195,45 @@ def recRelabelled (perm metric epsS mvS embS : String) : String :=
   showBoolMat (Recurrence.zeroStride
     (Recurrence.fixedThreshold m (rows n idx emb) eps (mvS == "1")) (n + 1))
 
+def recMetric (metric : String) : Recurrence.Metric :=
+  if metric == "manhattan" then .manhattan else if metric == "euclidean" then .euclidean
+  else .supremum
+
+def showAdj (R : Option (List (List Bool))) (stride : Nat) : String :=
+  match R with
+  | some R => showBoolMat (Recurrence.zeroStride R stride)
+  | none => "indexerror"
+
+/-- round 4: network adjacency at a fixed (global / local) recurrence rate; `k` is the index the
+source computes (`int(rate * (len - 1))`) -/
+def recRateRelabelled (perm metric kS localS embS : String) : String :=
+  let idx := permFn (nats perm)
+  let emb := optV embS; let n := emb.length
+  let D := Recurrence.distRP (recMetric metric) (rows n idx emb)
+  let k := kS.toNat!
+  showAdj (if localS == "1" then Recurrence.fixedLocalRate D k else Recurrence.fixedRate D k) (n + 1)
+
+/-- round 4: joint recurrence network (lag 0) of two trajectories reordered together -/
+def recJointRelabelled (perm metric exS eyS embxS embyS : String) : String :=
+  let idx := permFn (nats perm)
+  let ex := optV embxS; let ey := optV embyS; let n := ex.length
+  let m := recMetric metric
+  showAdj (Recurrence.hadamard
+    (Recurrence.fixedThreshold m (rows n idx ex) ((rat? exS).getD 0) false)
+    (Recurrence.fixedThreshold m (rows n idx ey) ((rat? eyS).getD 0) false)) (n + 1)
+
+/-- round 4: inter-system recurrence network of two separately reordered systems -/
+def recIsrnRelabelled (permx permy metric exS eyS exyS embxS embyS : String) : String :=
+  let idx := permFn (nats permx); let idy := permFn (nats permy)
+  let ex := optV embxS; let ey := optV embyS; let nx := ex.length; let ny := ey.length
+  let m := recMetric metric
+  let ex' := rows nx idx ex; let ey' := rows ny idy ey
+  showAdj (Recurrence.isrm nx ny
+    (Recurrence.fixedThreshold m ex' ((rat? exS).getD 0) false)
+    (Recurrence.fixedThreshold m ey' ((rat? eyS).getD 0) false)
+    (Recurrence.threshold (Recurrence.distCRP m ex' ey')
+      (some (Recurrence.unitThr m ((rat? exyS).getD 0))))) (nx + ny + 1)
+
 end relabelled
 
 def answer (toks : List String) : String :=
@@ -205,6 +244,10 @@ def answer (toks : List String) : String :=
   | ["geo", perm, dir, dim, x, adj, d] => geoRelabelled perm dir dim x adj d
   | ["rec", perm, metric, eps, mv, emb] => recRelabelled perm metric eps mv emb
   | ["lattr", perm, dir, n, edges, w] => linkAttrRelabelled perm dir n edges w
+  | ["recrate", perm, metric, k, loc, emb] => recRateRelabelled perm metric k loc emb
+  | ["recjoint", perm, metric, ex, ey, embx, emby] => recJointRelabelled perm metric ex ey embx emby
+  | ["recisrn", px, py, metric, ex, ey, exy, embx, emby] =>
+      recIsrnRelabelled px py metric ex ey exy embx emby
   | ["eval", n, adj, w, la0, g0, g1, dist, sig] => evalAll (mkGr n adj w la0 g0 g1 dist sig)
   | ["relabel", perm, n, adj, w, la0, g0, g1, dist, sig] =>
       let p := nats perm
